@@ -306,6 +306,10 @@ def check_case(case, ctx):
                         c.set_outputs(list(ops[0]))
                     ops = [c.outputs]
                 ctx.count('live_operand_list')
+            elif not case.get('same_list_object'):
+                # any iterable the signature admits (Iterable[Label]): list, tuple, generator, iterator, map object
+                _fr = random.Random(repr(case.get('rseed')) + f)
+                ops = [A.flavour(_fr, o, ctx) for o in ops]
             if f == 'add_sum2':
                 ar.add_sum2(c, ops[0])
             elif f == 'add_sum3':
@@ -322,7 +326,8 @@ def check_case(case, ctx):
                 ar.add_sum_two_numbers(c, ops[0], ops[1], big_endian=be)
             elif f == 'add_sum_two_numbers_with_shift':
                 sh = case['shift']
-                ctx.count('shift:' + ('above' if sh > len(ops[0]) else ('equal' if sh == len(ops[0]) else 'below')))
+                n0 = len(case['operands'][0])
+                ctx.count('shift:' + ('above' if sh > n0 else ('equal' if sh == n0 else 'below')))
                 ar.add_sum_two_numbers_with_shift(c, sh, ops[0], ops[1], big_endian=be)
             elif f == 'add_sum_pow2_m1':
                 ar.add_sum_pow2_m1(c, ops[0], basis=basis, big_endian=be)
